@@ -443,7 +443,7 @@ func main() {
 			work(t)
 			return
 		}
-		t.Rule("case = (mode, input, cancel kind, cancel point); precancel: 2 kinds x 2 entry points per input; midread: cancel/deadline fired synchronously inside the k-th Read of the counting reader, k in {1,2,3,5,10,25,50,75,90 %,last} of the uncancelled read's Read calls (every k when the read takes <= 64 Read calls, <= 600 for broken-xref documents); async: a goroutine (or a real timer) cancels after a seeded reader operation, under -race; non-trivial = distinct (mode, input, kind, point)")
+		t.Rule("case = (mode, input, cancel kind, cancel point); precancel: 2 kinds x 2 entry points per input; midread: cancel/deadline fired synchronously inside the k-th Read of the counting reader, k in {1,2,3,5,10,25,50,75,90 %,last} of the uncancelled read's Read calls (every k when the read takes <= 64 Read calls, <= 120 for broken-xref documents); async: a goroutine (or a real timer) cancels after a seeded reader operation, under -race; non-trivial = distinct (mode, input, kind, point)")
 		t.Assume("\"promptly\" is measured in reader operations after the cancel point (<= max(32, 2 % of the uncancelled read)), not in time; CPU-only work between two reader operations is not bounded by this check")
 		t.Assume("inputs that do not read with a live context are left out (the property's error clause is about inputs that would read)")
 		t.Assume("the deadline kind of the synchronous mode uses a harness context.Context implementation whose Err() becomes context.DeadlineExceeded inside the Read call")
@@ -539,7 +539,7 @@ func work(t *vk.T) {
 			}
 		}
 		pts := cancelPoints(in.Reads)
-		if in.Reads <= 64 || (in.Class == "repair" && in.Reads <= 600) {
+		if in.Reads <= 64 || (in.Class == "repair" && in.Reads <= 120) {
 			// short reads (small and broken-xref documents): every Read call is a cancel point in both tiers,
 			// so a defect that needs the cancel in one particular Read (e.g. the one that loads an xref
 			// stream, or the one that hits EOF while buffering) cannot fall between the standard points
